@@ -48,7 +48,7 @@ type Attr struct {
 }
 
 type Identity struct {
-	Raw string     `json:"raw"`
+	Raw string    `json:"raw"`
 	DN  *[][]Attr `json:"dn"`
 }
 
@@ -69,11 +69,13 @@ type Doc struct {
 }
 
 type Input struct {
-	Kind  string `json:"kind"`
-	Doc   Doc    `json:"doc"`
-	Other *Doc   `json:"other"`
-	Rx    string `json:"rx"`
-	Text  string `json:"text"`
+	Kind      string `json:"kind"`
+	Doc       Doc    `json:"doc"`
+	Other     *Doc   `json:"other"`
+	Before    *Doc   `json:"before"`
+	BeforeBad *Doc   `json:"beforeBad"`
+	Rx        string `json:"rx"`
+	Text      string `json:"text"`
 }
 
 type Obs struct {
@@ -184,24 +186,136 @@ func fixedDoc(kind string, valid bool) doc {
 	return d
 }
 
+// objOps is what the validate-edit-validate histories need of a document object of one kind.
+type objOps struct {
+	build     func(d doc) any    // a fresh object holding d
+	validate  func(o any) bool   // o.Validate() == nil
+	overwrite func(o any, d doc) // *o = *build(d): the whole struct is replaced
+	edit      func(o any, d doc) // the exported fields are set one by one (unexported state stays)
+	editSlice func(o any, d doc) // the statements are written into the slice the object already has
+	clone     func(o any) any    // derived := *o
+	verifier  func(o any) bool   // NewVerifierWithOptions accepts o
+}
+
+var ociOps = objOps{
+	build:     func(d doc) any { return buildOCI(d) },
+	validate:  func(o any) bool { return o.(*trustpolicy.OCIDocument).Validate() == nil },
+	overwrite: func(o any, d doc) { *o.(*trustpolicy.OCIDocument) = *buildOCI(d) },
+	edit: func(o any, d doc) {
+		p, src := o.(*trustpolicy.OCIDocument), buildOCI(d)
+		p.Version = src.Version
+		p.TrustPolicies = src.TrustPolicies
+	},
+	editSlice: func(o any, d doc) {
+		p, src := o.(*trustpolicy.OCIDocument), buildOCI(d)
+		p.Version = src.Version
+		p.TrustPolicies = append(p.TrustPolicies[:0], src.TrustPolicies...)
+	},
+	clone: func(o any) any { c := *o.(*trustpolicy.OCIDocument); return &c },
+	verifier: func(o any) bool {
+		_, err := verifier.NewVerifierWithOptions(noStore{}, verifier.VerifierOptions{OCITrustPolicy: o.(*trustpolicy.OCIDocument)})
+		return err == nil
+	},
+}
+
+var blobOps = objOps{
+	build:     func(d doc) any { return buildBlob(d) },
+	validate:  func(o any) bool { return o.(*trustpolicy.BlobDocument).Validate() == nil },
+	overwrite: func(o any, d doc) { *o.(*trustpolicy.BlobDocument) = *buildBlob(d) },
+	edit: func(o any, d doc) {
+		p, src := o.(*trustpolicy.BlobDocument), buildBlob(d)
+		p.Version = src.Version
+		p.TrustPolicies = src.TrustPolicies
+	},
+	editSlice: func(o any, d doc) {
+		p, src := o.(*trustpolicy.BlobDocument), buildBlob(d)
+		p.Version = src.Version
+		p.TrustPolicies = append(p.TrustPolicies[:0], src.TrustPolicies...)
+	},
+	clone: func(o any) any { c := *o.(*trustpolicy.BlobDocument); return &c },
+	verifier: func(o any) bool {
+		_, err := verifier.NewVerifierWithOptions(noStore{}, verifier.VerifierOptions{BlobTrustPolicy: o.(*trustpolicy.BlobDocument)})
+		return err == nil
+	},
+}
+
+// histories: every entry is the verdict on d at the end of a history of a document object
+// (Lean: `historyCount` entries, all must equal the verdict on d alone). `first` is the object
+// whose Validate() was already called once; `before` is a document of the same kind the other
+// objects hold - and have validated or built a verifier from - before they are edited into d.
+func histories(ops objOps, first any, d doc, before doc, bad doc) []bool {
+	good := fixedDoc(d.kind, true)
+	var out []bool
+	// 0: Validate() a second time on the same object
+	out = append(out, ops.validate(first))
+	// 1, 2: an object that validated a well-formed / an ill-formed document, then replaced as a whole
+	for _, b := range []doc{good, bad} {
+		o := ops.build(b)
+		ops.validate(o)
+		ops.overwrite(o, d)
+		out = append(out, ops.validate(o))
+	}
+	// 3, 4: ... then edited field by field (validate - edit - validate on ONE object)
+	for _, b := range []doc{before, bad} {
+		o := ops.build(b)
+		ops.validate(o)
+		ops.edit(o, d)
+		out = append(out, ops.validate(o))
+	}
+	// 5: a struct copy of a validated object, edited, validated
+	{
+		base := ops.build(before)
+		ops.validate(base)
+		derived := ops.clone(base)
+		ops.edit(derived, d)
+		out = append(out, ops.validate(derived))
+	}
+	// 6: a verifier was built from the object; edited; handed to a second construction
+	{
+		base := ops.build(before)
+		ops.verifier(base)
+		ops.edit(base, d)
+		out = append(out, ops.verifier(base))
+	}
+	// 7: ... a struct copy of it, edited, handed to a construction
+	{
+		base := ops.build(before)
+		ops.verifier(base)
+		derived := ops.clone(base)
+		ops.edit(derived, d)
+		out = append(out, ops.verifier(derived))
+	}
+	// 8: validated; the statements written into the slice the object already has
+	{
+		o := ops.build(before)
+		ops.validate(o)
+		ops.editSlice(o, d)
+		out = append(out, ops.validate(o))
+	}
+	// 9: d - before - d on one object: validated in every state
+	{
+		o := ops.build(d)
+		ops.validate(o)
+		ops.edit(o, before)
+		ops.validate(o)
+		ops.edit(o, d)
+		out = append(out, ops.validate(o))
+	}
+	return out
+}
+
 // observe runs every acceptance route for one document: Validate() on the struct (twice, and on
 // objects that held and validated another document before), Validate() after a JSON round trip,
 // verifier.NewVerifierWithOptions alone and together with `other` (a document of the other kind,
 // may be nil), and the deprecated constructors.
-func observe(d doc, other *doc) Obs {
+func observe(d doc, other *doc, before doc, bad doc) Obs {
 	o := Obs{Levels: [][]KV{}, OkRepeat: []bool{}}
 	var svs []trustpolicy.SignatureVerification
 	switch d.kind {
 	case "oci":
 		pd := buildOCI(d)
 		o.OkStruct = pd.Validate() == nil
-		o.OkRepeat = append(o.OkRepeat, pd.Validate() == nil)
-		for _, before := range []bool{true, false} {
-			obj := buildOCI(fixedDoc("oci", before))
-			_ = obj.Validate()
-			*obj = *buildOCI(d)
-			o.OkRepeat = append(o.OkRepeat, obj.Validate() == nil)
-		}
+		o.OkRepeat = histories(ociOps, pd, d, before, bad)
 		raw, err := json.Marshal(pd)
 		if err != nil {
 			panic(err)
@@ -234,13 +348,7 @@ func observe(d doc, other *doc) Obs {
 	case "blob":
 		pd := buildBlob(d)
 		o.OkStruct = pd.Validate() == nil
-		o.OkRepeat = append(o.OkRepeat, pd.Validate() == nil)
-		for _, before := range []bool{true, false} {
-			obj := buildBlob(fixedDoc("blob", before))
-			_ = obj.Validate()
-			*obj = *buildBlob(d)
-			o.OkRepeat = append(o.OkRepeat, obj.Validate() == nil)
-		}
+		o.OkRepeat = histories(blobOps, pd, d, before, bad)
 		raw, err := json.Marshal(pd)
 		if err != nil {
 			panic(err)
@@ -499,7 +607,53 @@ func (g *gen) validStatement(kind string, i int, usedScopes map[string]bool, wil
 		if g.chance(0.3) {
 			s.ids = []string{"*"}
 		} else {
-			if g.chance(0.35) {
+			if g.chance(0.25) {
+				// near-equal names: the same attributes, one value differing only in letter case, in a
+				// trailing blank or in a non-ASCII letter's case - different values, no overlap
+				base := []rdn{{"C", "US"}, {g.pick("ST", "S"), "WA"}, {"O", "Contoso"}, {"CN", "Signer"}}
+				with := func(typ, val string, extra ...rdn) []rdn {
+					out := []rdn{}
+					for _, r := range base {
+						if r.typ == typ || (typ == "ST" && r.typ == "S") {
+							r.val = val
+						}
+						out = append(out, r)
+					}
+					return append(out, extra...)
+				}
+				variants := [][]rdn{
+					with("O", "CONTOSO", rdn{"OU", "Build"}),
+					with("ST", "wa"),
+					with("CN", "signer"),
+					with("O", "Contoso "),
+					with("O", "contoso"),
+					with("CN", "SIGNER", rdn{"L", "Seattle"}),
+					with("CN", "Signér"),
+					with("C", "us"),
+				}
+				g.c.Rand.Shuffle(len(variants), func(i, j int) { variants[i], variants[j] = variants[j], variants[i] })
+				fam := [][]rdn{base}
+				// keep variants that change different attributes: any two names then differ in a shared attribute
+				seen := map[string]bool{}
+				for _, v := range variants {
+					key := ""
+					for i, r := range base {
+						if v[i].val != r.val {
+							key = r.typ
+						}
+					}
+					if !seen[key] && len(fam) < 2+g.n(2) {
+						seen[key] = true
+						fam = append(fam, v)
+					}
+				}
+				g.c.Rand.Shuffle(len(fam), func(i, j int) { fam[i], fam[j] = fam[j], fam[i] })
+				for _, rd := range fam {
+					rd = append([]rdn{}, rd...)
+					g.c.Rand.Shuffle(len(rd), func(i, j int) { rd[i], rd[j] = rd[j], rd[i] })
+					s.ids = append(s.ids, g.x509(rd))
+				}
+			} else if g.chance(0.35) {
 				// a family: the same C, ST, O and one further attribute of a different type each -
 				// incomparable names, none a subset of another
 				base := []rdn{{"C", g.pick("US", "DE")}, {g.pick("ST", "S"), "WA"}, {"O", "family"}}
@@ -1422,18 +1576,43 @@ func Run(c *common.Ctx) error {
 		}
 		return &d
 	}
-	emitPair := func(d doc, other *doc, tag string) {
+	// before: the document the objects of the histories hold before they are edited into d
+	// (nil: the fixed well-formed document of that kind)
+	emitHist := func(d doc, other *doc, before *doc, tag string) {
 		in, valid := abstract(d)
 		if other != nil {
 			oin, ovalid := abstract(*other)
 			in.Other = &oin.Doc
 			valid = valid && ovalid
 		}
+		b := fixedDoc(d.kind, true)
+		if before != nil {
+			b = *before
+			c.Count("history/edited-from-its-valid-original")
+		} else {
+			c.Count("history/edited-from-the-fixed-document")
+		}
+		bin, bvalid := abstract(b)
+		in.Before = &bin.Doc
+		valid = valid && bvalid
+		// the document of the histories that start from a refusal: fixed, or a valid one after a random edit
+		bad := fixedDoc(d.kind, false)
+		if g.chance(0.5) {
+			bad = g.validDoc(d.kind)
+			for try := 0; try < 4; try++ {
+				if applyOp(operators[g.n(len(operators))], g, &bad) {
+					break
+				}
+			}
+		}
+		badin, badvalid := abstract(bad)
+		in.BeforeBad = &badin.Doc
+		valid = valid && badvalid
 		if !valid {
 			c.Count("skipped/not-utf8")
 			return
 		}
-		o := observe(d, other)
+		o := observe(d, other, b, bad)
 		c.Emit(in, o)
 		verdict := "rejected"
 		if o.OkStruct {
@@ -1450,7 +1629,16 @@ func Run(c *common.Ctx) error {
 			c.Count("pair/" + verdict + "+other/verifier-refused")
 		}
 	}
-	emitDoc := func(d doc, tag string) { emitPair(d, pickOther(d.kind), tag) }
+	emitPair := func(d doc, other *doc, tag string) { emitHist(d, other, nil, tag) }
+	emitDoc := func(d doc, tag string) {
+		if g.chance(0.3) {
+			b := g.validDoc(d.kind) // the objects of the histories held some other well-formed document before
+			emitHist(d, pickOther(d.kind), &b, tag)
+			return
+		}
+		emitPair(d, pickOther(d.kind), tag)
+	}
+	emitEdited := func(d doc, original doc, tag string) { emitHist(d, pickOther(d.kind), &original, tag) }
 
 	// the constructor guards, and every (valid | invalid) x (valid | invalid | absent) pair of fixed documents
 	for _, kind := range []string{"oci", "blob"} {
@@ -1497,6 +1685,12 @@ func Run(c *common.Ctx) error {
 		d = base.clone()
 		d.stmts[0].ids = []string{"x509.subject:C=US,ST=WA,O=x,CN=,CN=foo"}
 		emitDoc(d, "witness")
+		d = base.clone()
+		d.stmts[0].ids = []string{"x509.subject:C=US,ST=WA,O=Contoso", "x509.subject:C=US,ST=WA,O=CONTOSO,OU=Build"}
+		emitDoc(d, "witness") // values that differ in letter case are different values: no overlap
+		d = base.clone()
+		d.stmts[0].ids = []string{"x509.subject:C=US,ST=WA,O=x,CN=Signer", "x509.subject:C=US,ST=wa,O=x,CN=Signer", "x509.subject:C=US,ST=WA,O=x,CN=signer"}
+		emitDoc(d, "witness")
 		for _, nm := range []string{" ", "\t", "\u00a0", " \n "} {
 			d = base.clone()
 			d.stmts[0].name = nm
@@ -1511,10 +1705,10 @@ func Run(c *common.Ctx) error {
 
 	// every single operator on a few valid documents, every ordered pair at least once
 	reps := 30
-	pairReps := 5
-	randomDocs := 15000
+	pairReps := 4
+	randomDocs := 7000
 	if c.Thorough() {
-		reps, pairReps, randomDocs = 200, 40, 150000
+		reps, pairReps, randomDocs = 200, 30, 70000
 	}
 	for _, kind := range []string{"oci", "blob"} {
 		for i := 0; i < reps*25; i++ {
@@ -1523,20 +1717,22 @@ func Run(c *common.Ctx) error {
 		for _, op := range operators {
 			for i := 0; i < reps*3; i++ {
 				d := g.validDoc(kind)
+				original := d.clone()
 				if !applyOp(op, g, &d) {
 					continue
 				}
-				emitDoc(d, "1:"+op.name)
+				emitEdited(d, original, "1:"+op.name)
 			}
 		}
 		for _, op1 := range operators {
 			for _, op2 := range operators {
 				for i := 0; i < pairReps; i++ {
 					d := g.validDoc(kind)
+					original := d.clone()
 					if !applyOp(op1, g, &d) || !applyOp(op2, g, &d) {
 						continue
 					}
-					emitDoc(d, "2")
+					emitEdited(d, original, "2")
 				}
 			}
 		}
@@ -1547,6 +1743,6 @@ func Run(c *common.Ctx) error {
 
 	g.regexCases(domainRe, repoRe)
 
-	c.Note("documents: grammar of valid OCI and blob documents; %d operators (one per rule + 2 benign) applied singly and in every ordered pair; random assembly from good/bad fragment pools; each document through struct Validate, JSON round trip + Validate, verifier.NewVerifierWithOptions alone; constructors also with a second document of the other kind (absent / valid / edited / random) and through the deprecated New / NewWithOptions; Validate() repeated on the same object and on objects that validated another document before; nil documents; identities carry go-ldap's ParseDN answer. regex: exhaustive short words over small alphabets + grammar-directed and mutated strings against Go regexp compiled from the source text of the tree under test (file.IsValidFileName called directly; scope through a one-statement document).", len(operators))
+	c.Note("documents: grammar of valid OCI and blob documents; %d operators (one per rule + 2 benign) applied singly and in every ordered pair; random assembly from good/bad fragment pools; each document through struct Validate, JSON round trip + Validate, verifier.NewVerifierWithOptions alone; constructors also with a second document of the other kind (absent / valid / edited / random) and through the deprecated New / NewWithOptions; validate-edit-validate histories on one object, on struct copies and across verifier constructions (the edited documents start from their own valid original); nil documents; identities carry go-ldap's ParseDN answer. regex: exhaustive short words over small alphabets + grammar-directed and mutated strings against Go regexp compiled from the source text of the tree under test (file.IsValidFileName called directly; scope through a one-statement document).", len(operators))
 	return nil
 }
